@@ -255,6 +255,8 @@ struct C20 : public Driver {
         else if (cont == "hashtable") { kn["buckets"] = gc.chance(1, 6) ? 101 : SMALL[gc.below(8)]; kn["bsize"] = gc.chance(1, 4) ? 15 : (int)gc.below(4); }
         else if (cont == "bitmap") { static const int BITS[] = { 0, 1, 7, 8, 9, 15, 16, 17, 31, 33, 64, 70 }; kn["bits"] = BITS[gc.below(12)]; }
         else if (cont == "cache") kn["init"] = (int)gc.below(4);
+        // the second container lives on a memory manager of its own (swap exchanges the managers as well; a block must go back where it came from)
+        if (cont == "vector" || cont == "deque" || cont == "map" || cont == "set" || cont == "string") kn["mm2"] = (int)(run % 3 == 0);
         p["knobs"] = kn;
         Gen gen(root, modeB); gen.wideInts = cont == "set" && kn.num("wide") != 0 && elem == "int";
         p["ops"] = gen.history(CONT[ci].ops);
@@ -510,6 +512,10 @@ struct C20 : public Driver {
                 else res.count("blocks-outstanding-after-faulted-history", (int64_t)mm.liveBlocks);
             }
         }
+        { SimMemoryManager& m2 = R->mm2;
+          if (m2.foreignFrees) res.violate("bad-free", R->cont + ":foreign-free:second-manager", std::to_string(m2.foreignFrees) + " deallocations, through the second container's manager, of pointers it never handed out");
+          if (m2.doubleFrees) res.violate("bad-free", R->cont + ":double-free:second-manager", m2.firstBadFree);
+          if (code == 0 && completed && R->phase == "final" && !R->poisoned && m2.liveBlocks != 0 && mm.refused == 0) res.violate("leak", R->cont + ":second-manager", std::to_string(m2.liveBlocks) + " blocks of the second container's manager still allocated after the containers were destroyed"); }
         if (mm.foreignFrees) res.violate("bad-free", R->cont + ":foreign-free", std::to_string(mm.foreignFrees) + " deallocations of pointers this manager never handed out");
         if (mm.doubleFrees) res.violate("bad-free", R->cont + ":double-free", mm.firstBadFree);
         tr.ev("end allocs=" + std::to_string(mm.serial) + " refused=" + std::to_string(mm.refused) + " live=" + std::to_string(mm.liveBlocks));
